@@ -445,6 +445,11 @@ theorem step_good (hpl : 0 < pl) {s : State} (hg : Good crc pl blob s) (a : Acti
     split
     · rename_i hq; exact reopen_good hg hq
     · exact hg
+  | recreate =>
+    simp only [step]
+    split
+    · rw [hg.mi_eq]; exact init_good crc pl blob
+    · exact hg
 
 /-! ### consequences of the invariant -/
 
